@@ -93,3 +93,37 @@ void h_deep(void)
 	V_CANARY("deep ppMinPolyMod");
 }
 #endif
+#ifdef F_ppMulAll
+/* every operand size 1..24 x 1..24 (Karatsuba levels and the fixed-size kernels) on a stack of exactly ppMul_deep(n, m) /
+   ppSqr_deep(n) / ppDiv_deep / ppMod_deep octets; products against the schoolbook carry-less reference */
+void h_deep(void)
+{
+	V_IN(unsigned, sel); V_IN_ARR(word, a0, 24); V_IN_ARR(word, b0, 24);
+	size_t n = 1 + sel % 24, m = 1 + (sel / 24) % 24;
+	WBUF(a, n); WBUF(b, m); WBUF(c, n + m); WBUF(c2, 2 * n);
+	word ref[48];
+	FILL(a, a0, n); FILL(b, b0, m);
+	{
+		V_ALLOC(octet, stack, ppMul_deep(n, m));
+		ppMul(c, a, n, b, m, stack);
+		r_pmul(ref, a0, n, b0, m);
+		V_ASSERT(r_eq(c, ref, n + m), "ppMul == schoolbook carry-less product");
+	}
+	{
+		V_ALLOC(octet, stack, ppSqr_deep(n));
+		ppSqr(c2, a, n, stack);
+		r_pmul(ref, a0, n, a0, n);
+		V_ASSERT(r_eq(c2, ref, 2 * n), "ppSqr == schoolbook carry-less square");
+	}
+	if (n >= m && b0[m - 1] != 0)
+	{
+		WBUF(q, n - m + 1); WBUF(r, m); WBUF(r2, m);
+		V_ALLOC(octet, stack, ppDiv_deep(n, m)); V_ALLOC(octet, stack2, ppMod_deep(n, m));
+		ppDiv(q, r, a, n, b, m, stack);
+		ppMod(r2, a, n, b, m, stack2);
+		r_pmod(ref, a0, n, b0, m);
+		V_ASSERT(r_eq(r, ref, m) && r_eq(r2, ref, m), "ppDiv / ppMod remainder == reference");
+	}
+	V_CANARY("deep ppMulAll");
+}
+#endif
